@@ -147,16 +147,16 @@ impl World {
             Ok(Some(g)) => g,
             _ => return "norecord".into(),
         };
-        let (mls_epoch, token, members, mls_data, queued) = match m.load_mls_group(gid) {
+        let (mls_epoch, token, members, mls_data, queued, pendc) = match m.load_mls_group(gid) {
             Ok(Some(g)) => {
                 let auth = g.epoch_authenticator().as_slice().to_vec();
                 let n = self.tokens.len();
                 let t = *self.tokens.entry(auth).or_insert(n);
                 let mem: BTreeSet<String> = m.get_members(gid).map(|s| s.iter().map(|p| self.who(p)).collect()).unwrap_or_default();
                 let data = mdk_core::extension::NostrGroupDataExtension::from_group(&g).ok();
-                (g.epoch().as_u64() as i64, t as i64, mem, data, g.pending_proposals().count())
+                (g.epoch().as_u64() as i64, t as i64, mem, data, g.pending_proposals().count(), g.pending_commit().is_some() as u8)
             }
-            _ => (-1, -1, BTreeSet::new(), None, 0),
+            _ => (-1, -1, BTreeSet::new(), None, 0, 0),
         };
         let admins: BTreeSet<String> = group.admin_pubkeys.iter().map(|p| self.who(p)).collect();
         let relays: BTreeSet<u64> = m.get_relays(gid).map(|s| s.iter().map(relay_num).collect()).unwrap_or_default();
@@ -229,7 +229,7 @@ impl World {
             _ => "!sync",
         };
         format!(
-            "E{} T{} M[{}] A[{}] N{} D{} I{} R[{}] S{} PA[{}] PR[{}] L{} X[{}] K[{}] Z{}{} Q{}",
+            "E{} T{} M[{}] A[{}] N{} D{} I{} R[{}] S{} PA[{}] PR[{}] L{} X[{}] K[{}] Z{}{} Q{} C{}",
             group.epoch,
             token,
             members.into_iter().collect::<Vec<_>>().join(","),
@@ -246,7 +246,8 @@ impl World {
             recs.join(","),
             snaps,
             rec_sync,
-            queued
+            queued,
+            pendc
         )
     }
 
@@ -615,9 +616,9 @@ impl World {
                     let own = mg.own_leaf()?.clone();
                     let signer = SignatureKeyPair::read(storage, own.signature_key().as_slice(), mg.ciphersuite().signature_algorithm())?;
                     let sec = mg.export_secret(m.provider.crypto(), "nostr", b"nostr", 32).ok()?;
-                    let (msg, _) = mg.propose_self_update(&m.provider, &signer, LeafNodeParameters::default()).ok()?;
+                    let (msg, pref) = mg.propose_self_update(&m.provider, &signer, LeafNodeParameters::default()).ok()?;
                     let bytes = msg.tls_serialize_detached().ok()?;
-                    let _ = mg.clear_pending_proposals(storage);
+                    let _ = mg.remove_pending_proposal(storage, &pref);   // only this proposal: whatever else is queued stays
                     let keys = Keys::new(nostr::SecretKey::from_slice(&sec).ok()?);
                     let content = nostr::nips::nip44::encrypt(keys.secret_key(), &keys.public_key, &bytes, nostr::nips::nip44::Version::default()).ok()?;
                     EventBuilder::new(Kind::MlsGroupMessage, content)
